@@ -90,6 +90,8 @@ class H5DataSet:
         return data
 
     def set_attr(self, name, value):
+        # refused before the attribute is replaced
+        util.check_storable_text(value)
         if value is None:
             if name in self.dataset.attrs:
                 del self.dataset.attrs[name]
